@@ -731,6 +731,30 @@ class Enc:
             if not changed:
                 break
 
+    def named_sum(self, terms):
+        """variable S == sum(coef * atom) over statically bounded atoms; cached on the term list so that
+        the system's composed chains and the specification share one variable instead of two copies of a
+        several-hundred-term sum"""
+        if not hasattr(self, "_sums"):
+            self._sums = {}
+        terms = sorted((c, a) for c, a in terms if c)
+        ints = sum(c * a for c, a in terms if isinstance(a, int))
+        terms = [(c, a) for c, a in terms if not isinstance(a, int)]
+        key = (tuple(terms), ints)
+        if key in self._sums:
+            return self._sums[key]
+        if len(terms) <= 6:
+            body = self.lin_smt(terms, ints)
+            self._sums[key] = body
+            return body
+        lo = ints + sum(min(0, c * (self.bound(a) - 1)) for c, a in terms)
+        hi = ints + sum(max(0, c * (self.bound(a) - 1)) for c, a in terms)
+        S = self.fresh("S", lo, hi)
+        self.ub[S] = hi + 1 if lo >= 0 else self.P
+        self.lines.append(f"(assert (= {S} {self.lin_smt(terms, ints)}))")
+        self._sums[key] = S
+        return S
+
     def flat_lemmas(self):
         """Running-remainder chains (x = d0 + 2 d1 + ... + y1, y1 = 16 d4 + ... + y2, ...) are linear rows
         that each hold mod p. Their composition x == sum coef_i digit_i (mod p) is a consequence of the
@@ -758,7 +782,11 @@ class Enc:
                 continue
             if used & done_rows:
                 continue
-            self.modeq([(c, a) for c, a in dg] + [(-1, x)], 0)
+            S = self.named_sum(dg)
+            if S.startswith("("):
+                self.modeq([(c, a) for c, a in dg] + [(-1, x)], 0)
+            else:
+                self.modeq([(1, S), (-1, x)], 0)
             private = all(self.occ.get(a, 0) == 2 and a not in io_atoms for a in elim)
             if private and len(used) >= 3:
                 for ri in used:
